@@ -30,8 +30,8 @@ func TestProp(t *testing.T) {
 	c.Check(t, func(rt *rapid.T) {
 		s := e2.DrawStructural(rt, e2.StructOpt{
 			Env:    progen.EnvOpt{Avoid: c.ActiveSet()},
-			NTypes: 14, EnumChunks: true,
-			Roles:  []string{"equal", "contains", "unique", "set", "unionl", "intersectl", "unionm", "intersectm", "filter", "takewhile", "all", "any"},
+			NTypes: 14, EnumChunks: true, Carriers: true,
+			Roles: []string{"equal", "contains", "unique", "set", "unionl", "intersectl", "unionm", "intersectm", "filter", "takewhile", "all", "any"},
 		})
 		e2.RunCase(c, rt, s, e2.Options{Property: prop, Harness: "c14", Checks: checks(c)})
 	})
